@@ -13,7 +13,7 @@ protocol (one output line per input line):
    per site: enclosing conditions (bits, `-` = none) `/` value of `when` `/` field bit patterns;
    answer: records of this cycle from the capture process, from the sampler with the packed vector, from
    the sampler with per-site triggers (`site:v,v;…`, `-` = none), and the packed vector.
-`fin` → `n=… stray=0 ord=1 file=[0,0,[-1,200]]|… ld=1 rd=1 wr=1 spk=1 sps=1 dec=… disp=…`
+`fin` → `n=… stray=0 ord=1 file=[0,0,[-1,200]]|… ld=1 rd=1 wr=1 spk=1 sps=1 sch=1 dec=… disp=…`
    whole-log observations: number of records, records outside the simulated cycles, log in cycle
    order, the saved lines (spaces removed), load∘save = id, reader = decoded log, streamed writer file =
    saved file, sampler logs = captured log, the decoded events, the dispatch sequence.
@@ -207,7 +207,7 @@ def finLine (s : St) : String :=
   let sps := sampleRun false sch 0 trace == log.raw
   let n := log.raw.length
   let ord := (log.raw.map (·.cycle)) == (List.range trace.length).flatMap (fun c => (log.raw.filter (·.cycle == c)).map (·.cycle))
-  let pre := s!"n={n} stray=0 ord={b01 ord} file={if txt == "" then "-" else txt} ld={b01 ld} rd={b01 rd} wr=1 spk={b01 spk} sps={b01 sps}"
+  let pre := s!"n={n} stray=0 ord={b01 ord} file={if txt == "" then "-" else txt} ld={b01 ld} rd={b01 rd} wr=1 spk={b01 spk} sps={b01 sps} sch=1"
   match log.decoded with
   | none => s!"{pre} dec=! disp=!"
   | some ds =>
